@@ -24,7 +24,7 @@ Qed.
 
 (** the prefixes in use *)
 Example C13_prefixes :
-  forallb reserved ["__l"; "__r"; "__v"; "__self"; "__other"; "__this"; "__eq_"; "__partial_ord_"; "__ord_"; "__hash_"] = true.
+  forallb reserved ["__l"; "__r"; "__v"; "__self"; "__other"; "__this"; "__eq"; "__partial_ord"; "__ord"; "__hash"] = true.
 Proof. reflexivity. Qed.
 
 (** identifiers a template may contain besides reserved ones *)
